@@ -1,6 +1,6 @@
 //! C20 sub-engines `needle-*`: starts_with / ends_with / contains for every needle x haystack pair,
 //! scalar needle and needle column, on string and binary encodings.
-use crate::like::{Family, Xform, check_bool};
+use crate::like::{Family, Xform, attribute, check_bool};
 use crate::oracle::{seq_contains, seq_ends_with, seq_starts_with};
 use crate::tables::*;
 use arrow_array::types::Int32Type;
@@ -92,15 +92,26 @@ pub fn build(class: &'static str, fams: Vec<Family>, base_needles: &[Vec<u8>], t
     NeedleWorld { class, fams, nvars, n_needles: m }
 }
 
-fn fingerprint(kind: &str, class: &str, op: usize, form: &str, enc: Option<String>) -> String {
+fn fingerprint(kind: &str, class: &str, op: usize, form: &str, enc: &str) -> String {
     let base = match kind {
         "value" => format!("c20:{}:{form}:{class}", NOPS[op]),
         "wf" => format!("wf:c20:{}:{form}:{class}", NOPS[op]),
         k => format!("c20:{}:{form}:{class}:{k}", NOPS[op]),
     };
-    match enc {
-        Some(e) => format!("{base}:enc={e}"),
-        None => base,
+    if kind == "value" { format!("{base}{enc}") } else { base }
+}
+
+fn probe(op: usize, c1: &Col, needle: &[u8], scalar: bool) -> Option<Option<bool>> {
+    let r = if scalar {
+        let s = Scalar::new(make_pat_array(c1, &[Some(needle)]));
+        catch(|| call(op, &c1.arr, &s))
+    } else {
+        let a = make_pat_array(c1, &vec![Some(needle); c1.len()]);
+        catch(|| call(op, &c1.arr, &a))
+    };
+    match r {
+        Ok(Ok(a)) if a.len() > 0 => Some(a.is_valid(0).then(|| a.value(0))),
+        _ => None,
     }
 }
 
@@ -125,26 +136,19 @@ pub fn run_scalar(w: &NeedleWorld, ni: usize, st: &mut Stats, order_base: u64) {
             let nt = if needle.is_empty() { 0 } else { fam.table.iter().filter(|h| !h.is_empty()).count() as u64 };
             st.add(&format!("needle-{}-scalar", w.class), 0, nt);
             st.count(&format!("needle_{}_distinct_needle_haystack_pairs", w.class), n as u64);
-            let mut ref_bad = [[false; 3]; 2];
-            let mut ref_seen = [false; 2];
             for (ci, col) in fam.cols.iter().enumerate() {
-                let grp = col.ascii as usize;
-                let is_ref = !ref_seen[grp];
-                ref_seen[grp] = true;
                 let scal = Scalar::new(make_pat_array(col, &[Some(needle.as_slice())]));
                 for op in 0..3 {
                     let res = catch(|| call(op, &col.arr, &scal));
                     let r = check_bool(res, col.len(), |r| col.rows[r].map(|h| exp[op][h as usize]));
                     st.add(&format!("needle-{}-scalar", w.class), col.len() as u64, 0);
                     if let Err((kind, m)) = r {
-                        if is_ref {
-                            ref_bad[grp][op] = true;
-                        }
-                        let enc = (!is_ref && !ref_bad[grp][op]).then(|| col.enc_class());
-                        let hay = col.rows.get(m.row).copied().flatten().map(|h| show(&fam.table[h as usize]));
+                        let hrow = col.rows.get(m.row).copied().flatten();
+                        let enc = if kind == "value" { attribute(col, &fam.table, hrow, m.want_b, &|c1: &Col| probe(op, c1, needle, true)) } else { String::new() };
+                        let hay = hrow.map(|h| show(&fam.table[h as usize]));
                         st.violate(
                             order_base + (((ni as u64) << 20) | ((fi as u64) << 16) | ((ci as u64) << 4) | op as u64),
-                            fingerprint(&kind, w.class, op, "scalar", enc),
+                            fingerprint(&kind, w.class, op, "scalar", &enc),
                             format!("{}({} column {:?}, scalar needle {}) row {}: haystack {:?} got {} want {} ({} rows differ)", NOPS[op], col.enc_class(), col.name, show(needle), m.row, hay, m.got, m.want, m.count),
                             || json!({"sub": format!("needle-{}-scalar", w.class), "needle_index": ni, "needle": show(needle), "family": fam.name, "variant": nv.xf.name(), "column": col.name, "op": NOPS[op], "row": m.row, "haystack": hay, "got": m.got, "want": m.want}),
                         );
@@ -164,12 +168,7 @@ pub fn run_array(w: &NeedleWorld, shift: usize, st: &mut Stats, order_base: u64)
     let m = w.n_needles;
     for (fi, fam) in w.fams.iter().enumerate() {
         for nv in &w.nvars[fi] {
-            let mut ref_bad = [[false; 3]; 2];
-            let mut ref_seen = [false; 2];
             for (ci, col) in fam.cols.iter().enumerate() {
-                let grp = col.ascii as usize;
-                let is_ref = !ref_seen[grp];
-                ref_seen[grp] = true;
                 let n = col.len();
                 let rep = &nv.reps.iter().find(|(k, d, _)| *k == col.kind && *d == col.pat_dict).expect("rep column").2;
                 let needles = rep.slice(shift, n);
@@ -185,15 +184,14 @@ pub fn run_array(w: &NeedleWorld, shift: usize, st: &mut Stats, order_base: u64)
                     });
                     st.add(&format!("needle-{}-array", w.class), n as u64, 0);
                     if let Err((kind, mm)) = r {
-                        if is_ref {
-                            ref_bad[grp][op] = true;
-                        }
-                        let enc = (!is_ref && !ref_bad[grp][op]).then(|| col.enc_class());
-                        let hay = col.rows.get(mm.row).copied().flatten().map(|h| show(&fam.table[h as usize]));
-                        let nd = if rep_null(mm.row + shift) { "<null>".to_string() } else { show(&nv.needles[(mm.row + shift) % m]) };
+                        let hrow = col.rows.get(mm.row).copied().flatten();
+                        let null_needle = rep_null(mm.row + shift);
+                        let enc = if kind == "value" && !null_needle { attribute(col, &fam.table, hrow, mm.want_b, &|c1: &Col| probe(op, c1, &nv.needles[(mm.row + shift) % m], false)) } else { String::new() };
+                        let hay = hrow.map(|h| show(&fam.table[h as usize]));
+                        let nd = if null_needle { "<null>".to_string() } else { show(&nv.needles[(mm.row + shift) % m]) };
                         st.violate(
                             order_base + (((shift as u64) << 20) | ((fi as u64) << 16) | ((ci as u64) << 4) | op as u64),
-                            fingerprint(&kind, w.class, op, "array", enc),
+                            fingerprint(&kind, w.class, op, "array", &enc),
                             format!("{}({} column {:?}, needle column) row {}: haystack {:?} needle {} got {} want {} ({} rows differ)", NOPS[op], col.enc_class(), col.name, mm.row, hay, nd, mm.got, mm.want, mm.count),
                             || json!({"sub": format!("needle-{}-array", w.class), "shift": shift, "family": fam.name, "variant": nv.xf.name(), "column": col.name, "op": NOPS[op], "row": mm.row, "haystack": hay, "needle": nd, "got": mm.got, "want": mm.want}),
                         );
